@@ -25,7 +25,20 @@ def gen(tier, rng, shard, nshards):
             node = W.gen_invertible(rng, depth, dt, n, True, leaf_kinds=KINDS, comps=COMPS)
         else:
             node = W.gen_invertible(rng, depth, dt, n, False, leaf_kinds=KINDS + ["Dense"], comps=COMPS)
+        if dt == "f8" and rng.random() < 0.2:
+            node = intify(node, fn)  # integer-dtype Dense operands (cola's own docstrings build operators from integer arrays)
         yield {"spec": node, "fn": fn}
+
+
+def intify(node, fn):
+    if not isinstance(node, dict):
+        return node
+    out = {k: ([intify(c, fn) for c in v] if k == "args" else (intify(v, fn) if k == "arg" else v)) for k, v in node.items()}
+    if out.get("k") == "Dense" and len(out.get("shape", [])) == 2 and out["shape"][0] == out["shape"][1]:
+        for key in ("eigs", "svals", "vcond"):
+            out.pop(key, None)
+        out.update(gen="psd_int" if fn == "cholesky" else "intdom", int_dtype=True)
+    return out
 
 
 def pattern_ok(D, kind, tol):
